@@ -402,7 +402,12 @@ def gen_cxx(md, policy=0, introspect=False, frontend="functor"):
                 w("      typedef mpl::vector<%s> flag_list;" % ", ".join("Flag<%d>" % f for f in st["flags"]))
             if introspect:
                 w("      static const char* h_owner() { return \"%s\"; } static int h_decl() { return %d; }" % (pstr(path), i))
-            w("      template <class E, class F> void on_entry(E const& e, F& f) { H::cb(\"N\", F::path(), H::lib_id(F::path(), %d), e, f); }" % i)
+            # data a state opts into serialization with (C16): the number of times it was entered
+            w("#ifdef H_SERIALIZE")
+            w("      int h_hits = 0; typedef int do_serialize;")
+            w("      template <class Ar> void serialize(Ar& ar, const unsigned int) { ar & h_hits; }")
+            w("#endif")
+            w("      template <class E, class F> void on_entry(E const& e, F& f) { H_HIT; H::cb(\"N\", F::path(), H::lib_id(F::path(), %d), e, f); }" % i)
             w("      template <class E, class F> void on_exit(E const& e, F& f) { H::cb(\"X\", F::path(), H::lib_id(F::path(), %d), e, f); }" % i)
             if frontend == "row2":
                 for r in st["sirows"] + [x for x in m["rows"] if x["src"] == i and on_state(x)]:
@@ -527,6 +532,22 @@ def gen_cxx(md, policy=0, introspect=False, frontend="functor"):
                 sub = pname(path + (i,))
                 w("      if (a == H::lib_id(\"%s\", %d)) snap_%s(f.template get_state<M_%s&>(), tag);" % (pstr(path), i, sub, sub))
         w("    }")
+        w("  }")
+    # opted-in state data of every state of every machine of the tree, active or not (comment lines, read by mon_C16)
+    for path, m in sorted(machines, key=lambda pm: -len(pm[0])):
+        name = pname(path)
+        w("  static void data_%s(M_%s& f, const char* tag) {" % (name, name))
+        w("#ifdef H_SERIALIZE")
+        w("    std::printf(\"#DATA %%s %s [\", tag);" % pstr(path))
+        for i, st in enumerate(m["states"]):
+            if st["sub"] is None:
+                w("    std::printf(\" %%d\", f.template get_state<%s&>().h_hits);" % id_type(path, i, st))
+        w("    std::printf(\" ]\\n\");")
+        for i, st in enumerate(m["states"]):
+            if st["sub"] is not None:
+                sub = pname(path + (i,))
+                w("    data_%s(f.template get_state<M_%s&>(), tag);" % (sub, sub))
+        w("#endif")
         w("  }")
     # circular-buffer message queues need a capacity before use, at every level
     for path, m in sorted(machines, key=lambda pm: -len(pm[0])):
